@@ -205,7 +205,7 @@ fn main() {
     s.push_str(
         &cx.exhaustive
             .iter()
-            .map(|x| format!("\"{}\"", x.replace('"', "'")))
+            .map(|x| format!("\"{}\"", x.replace('\\', "\\\\").replace('"', "'")))
             .collect::<Vec<_>>()
             .join(", "),
     );
